@@ -584,6 +584,12 @@ def run_rules(res, facts, tier, want=('C02-R19', 'C11-R8')):
       r = res.rule('C02-R19', 'expressions end to end by interpretation: literals, location paths, all operators, the op-coded functions and predicates with position() / last() on forward '
                  'and reverse axes, compiled to a real op-code map and evaluated by the interpreted XPath::executeMore (operators, function members, predicates, step) over a '
                  'modelled XObject layer, from several context nodes: type and value are those of XPath 1.0 (reference evaluator)', floor=3000)
+    only_nodesets = False
+    if 'C12-R9' in want:
+      only_nodesets = True
+      r = res.rule('C12-R9', 'node-set valued expressions end to end by interpretation (the corpus and machinery of C02-R19: steps on forward and reverse axes with positional and '
+                 'boolean predicates, filter expressions, unions, several context nodes): the list that XPath::executeMore delivers holds each node once and in document order',
+                 floor=600)
     if 'C11-R8' in want:
       r11 = res.rule('C11-R8', 'the same expressions asked for as a boolean, a number, a string and as characters sent to a listener through the four typed executeMore overloads: the '
                    'answers equal boolean() / number() / string() of the generic result', floor=6000)
@@ -648,6 +654,8 @@ def run_rules(res, facts, tier, want=('C02-R19', 'C11-R8')):
             ops = expr.fields['m_opMap']
             for ctx in ctxs:
                 wantv = ex.fn(Ctx(ctx, 1, 1, doc, nodes))
+                if only_nodesets and getattr(wantv, 'kind', None) != 'nodeset':
+                    continue
                 w.calls = 0
                 w.cnl = [XO('nodeset', [ctx])]
                 w.current = ctx
@@ -726,6 +734,9 @@ def run_rules(res, facts, tier, want=('C02-R19', 'C11-R8')):
             found11.setdefault(k2, v)
     for key, (site, got, wantv) in sorted(found.items()):
         r.instances -= 1
+        if only_nodesets:
+            r.violation('node-set of ' + key, '%s is delivered as %s; XPath 1.0 / the contract of a node list in document order: %s' % (site, got, wantv), common.file_line(gen))
+            continue
         r.violation('expression ' + key, '%s evaluates to %s; XPath 1.0: %s' % (site, got, wantv), common.file_line(gen))
     for (kind, key), (site, tv, wv, got) in sorted(found11.items()):
         r11.instances -= 1
@@ -742,3 +753,7 @@ def run_rule(res, facts, tier):
 
 def run_c11_rule(res, facts, tier):
     return run_rules(res, facts, tier, ('C11-R8',))
+
+
+def run_c12_rule(res, facts, tier):
+    return run_rules(res, facts, tier, want=('C12-R9',))
